@@ -27,23 +27,33 @@ def install_salted_hashing():
 CHARS = 'abc'
 
 
-def gen_grammar(rng, colliding):
+def gen_grammar(rng, colliding, deep=False):
     """pure BNF, every alternative aliased, no empty alternative, no unit cycle, single-character terminals.
-    colliding=True adds terminals that match the same character with another priority (dynamic lexers only)."""
+    colliding=True adds terminals that match the same character with another priority (dynamic lexers only).
+    deep=True builds layered grammars (more nonterminals, mostly forward references, few priorities): a priority then sits
+    several rules below the ambiguous choice it decides, and not on a first-symbol chain."""
     terms = {'A': 'a', 'B': 'b', 'C': 'c'}
     if colliding:
         for t, c in (('A2', 'a'), ('B2', 'b')):
             if rng.random() < 0.7:
                 terms[t] = c
     tnames = sorted(terms)
-    n_nt = rng.randint(1, 4)
+    n_nt = rng.randint(3, 6) if deep else rng.randint(1, 4)
     nts = ['start'] + ['n%d' % i for i in range(1, n_nt)]
     rules = {}
     for idx, nt in enumerate(nts):
         alts = []
-        for _ in range(rng.randint(1, 4)):
+        later = nts[idx + 1:]
+        for _ in range(rng.randint(1, 4) if not deep else rng.randint(1, 3)):
             k = rng.choice([1, 1, 2, 2, 3])
-            syms = [rng.choice(tnames) if rng.random() < 0.5 else rng.choice(nts) for _ in range(k)]
+            syms = []
+            for _ in range(k):
+                if deep and later and rng.random() < 0.65:
+                    syms.append(rng.choice(later))
+                elif rng.random() < 0.5:
+                    syms.append(rng.choice(tnames))
+                else:
+                    syms.append(rng.choice(nts))
             if len(syms) == 1 and syms[0] in nts and nts.index(syms[0]) <= idx:
                 syms = [rng.choice(tnames)]          # a unit rule may only point forward: no unit cycles
             if syms not in alts:
@@ -52,8 +62,12 @@ def gen_grammar(rng, colliding):
     for nt in nts:
         if not any(all(s in terms for s in a) for a in rules[nt]):
             rules[nt].append([rng.choice(tnames)])   # productive
-    rprio = {nt: rng.choice([None, None, -2, -1, 1, 2, 3]) for nt in nts}
-    tprio = {t: rng.choice([0, 0, 0, 1, 2, -1, 3]) for t in tnames}
+    if deep:
+        rprio = {nt: rng.choice([None, None, None, None, -2, -1, 1, 2, 3]) for nt in nts}
+        tprio = {t: rng.choice([0, 0, 0, 0, 0, 1, 2, -1]) for t in tnames}
+    else:
+        rprio = {nt: rng.choice([None, None, -2, -1, 1, 2, 3]) for nt in nts}
+        tprio = {t: rng.choice([0, 0, 0, 1, 2, -1, 3]) for t in tnames}
     return {'nts': nts, 'rules': rules, 'rprio': rprio, 'tprio': tprio, 'terms': terms}
 
 
@@ -70,7 +84,7 @@ def grammar_text(g, with_priorities=True):
     return '\n'.join(lines) + '\n'
 
 
-def gen_inputs(g, rng, k=5, maxlen=7):
+def gen_inputs(g, rng, k=5, maxlen=8):
     outs = set()
     terms = g['terms']
 
